@@ -171,7 +171,7 @@ class Terms:
         args = tuple(self.operand(a, depth) for a in t["args"])
         if (path in PASS_THROUGH or path.endswith(PASS_SUFFIX)) and args:
             return args[0]
-        if path.endswith("::FromResidual<core::result::Result<core::convert::Infallible, E>>>::from_residual"):
+        if "::FromResidual<" in path and path.endswith(">::from_residual"):
             return ("residual", args[0] if args else None)
         return ("call", path, args)
 
